@@ -29,6 +29,42 @@ def attendSpec (th e : κ → κ) (fl : Flavour κ) (D : Nat) (q : List κ) (ks 
   (List.range D).map (fun d =>
     (kept.map (fun kv => e (score th fl q kv.1) / Z * kv.2.getD d 0)).sum)
 
+/-! ## The score functions as the docstrings write them (index sums) -/
+
+/-- `Σ_{i < n} f i`. -/
+def sumTo (n : Nat) (f : Nat → κ) : κ := ((List.range n).map f).sum
+
+/-- Entry `(i, j)` of a matrix stored as a list of rows. -/
+def entry (W : List (List κ)) (i j : Nat) : κ := (W.getD i []).getD j 0
+
+/-- Entry `i` of an optional bias vector; no bias = nothing is added. -/
+def biasAt (b : Option (List κ)) (i : Nat) : κ :=
+  match b with
+  | none => 0
+  | some b => b.getD i 0
+
+/-- The three docstring formulas, `Q = query_size`, `K = key_size`:
+
+* dot:      `e = scale_factor Σ_i query_i key_i`
+* general:  `e = Σ_i query_i (Σ_j W_ij key_j + b_i)`      (bias inside: `W key + b`)
+* concat:   `e = Σ_i v_i tanh(Σ_c W_ic [query, key]_c + b_i)` (bias inside the `tanh`, none on `v`),
+  with `[query, key]_c = query_c` for `c < Q` and `key_{c-Q}` otherwise. -/
+def scoreSpec (th : κ → κ) (Q K : Nat) : Flavour κ → List κ → List κ → κ
+  | .dot c, q, k => sumTo Q (fun i => q.getD i 0 * k.getD i 0) * c
+  | .general W b, q, k =>
+    sumTo Q (fun i => q.getD i 0 * (sumTo K (fun j => entry W i j * k.getD j 0) + biasAt b i))
+  | .concat W b v, q, k =>
+    sumTo v.length (fun i => v.getD i 0 *
+      th (sumTo Q (fun c => entry W i c * q.getD c 0)
+        + sumTo K (fun c => entry W i (Q + c) * k.getD c 0) + biasAt b i))
+
+/-- The parameters have the shapes the constructors allocate. -/
+def Flavour.WellShaped (Q K : Nat) : Flavour κ → Prop
+  | .dot _ => Q = K
+  | .general W b => W.length = Q ∧ (∀ r ∈ W, r.length = K) ∧ (∀ bb, b = some bb → bb.length = Q)
+  | .concat W b v => W.length = v.length ∧ (∀ r ∈ W, r.length = Q + K) ∧
+      (∀ bb, b = some bb → bb.length = v.length)
+
 /-- Rows `h*d … (h+1)*d - 1` of a projection matrix / entries of a bias: head `h`'s block. -/
 def headBlock {α : Type} (d h : Nat) (W : List α) : List α := (W.drop (h * d)).take d
 
@@ -55,5 +91,46 @@ def mhaSpecH (th : κ → κ) (eh : Nat → κ → κ) (m : MHA κ) (q : List κ
 /-- "A bias exactly on the projections for which one was requested". -/
 def BiasAsRequested (f : BiasFlags) (m : MHA κ) : Prop :=
   m.bQ.isSome = f.wq ∧ m.bK.isSome = f.wk ∧ m.bV.isSome = f.wv ∧ m.bC.isSome = f.wc
+
+/-! ## Shapes: the broadcasting rule and what `check_input` accepts, declaratively -/
+
+/-- Size of the `j`-th axis counted from the LAST one; axes a shape does not have count as 1. -/
+def axisR (s : List Nat) (j : Nat) : Nat := s.reverse.getD j 1
+
+/-- The torch / numpy broadcasting rule: align the shapes at the last axis; at every position the
+two sizes are equal or one of them is 1; the result takes the size that is not 1. -/
+def BroadcastTo (a b c : List Nat) : Prop :=
+  c.length = max a.length b.length ∧
+  ∀ j, j < c.length →
+    (axisR a j = axisR b j ∨ axisR a j = 1 ∨ axisR b j = 1) ∧
+    axisR c j = if axisR a j = 1 then axisR b j else axisR a j
+
+/-- The conditions under which `check_input` accepts a call, and the shape `full = (E*, T, F*, D)`
+over which scores, mask and value are jointly broadcast: `query` has one axis fewer than `key`,
+`value` as many; the last axes of `query` / `key` are `query_size` / `key_size`; `dim` names an
+axis of `key` other than the last one and is not `-1`; `query.unsqueeze(dim)` and `key` (without
+their last axes) broadcast to some `e`, `e` and the mask (if any) to `e'`, `e' + (1,)` and `value` to
+`full`; for `MultiHeadedAttention` the last axis of `value` is `value_size`. -/
+structure InputOk (querySize keySize : Nat) (valueSize : Option Nat) (dim : Int)
+    (q k v : List Nat) (mask : Option (List Nat)) (full : List Nat) : Prop where
+  rank_query : q.length + 1 = k.length
+  rank_value : k.length = v.length
+  size_query : q.getLast? = some querySize
+  size_key : k.getLast? = some keySize
+  dim_hi : dim ≤ (k.length : Int) - 2
+  dim_ne : dim ≠ -1
+  dim_lo : -(k.length : Int) + 1 ≤ dim
+  bcast : ∃ e e', BroadcastTo (insertAt (seqAxis dim k.length) 1 q).dropLast k.dropLast e ∧
+    (match mask with
+      | none => e' = e
+      | some ms => BroadcastTo e ms e') ∧
+    BroadcastTo (e' ++ [1]) v full
+  size_value : ∀ n, valueSize = some n → v.getLast? = some n
+
+/-- The conditions whose failure is reported BEFORE any broadcasting is attempted
+(`ValueError`; `RuntimeError` in `MultiHeadedAttention`). -/
+def RanksSizesDimOk (querySize keySize : Nat) (dim : Int) (q k v : List Nat) : Prop :=
+  q.length + 1 = k.length ∧ k.length = v.length ∧ q.getLast? = some querySize ∧
+  k.getLast? = some keySize ∧ dim ≤ (k.length : Int) - 2 ∧ dim ≠ -1 ∧ -(k.length : Int) + 1 ≤ dim
 
 end PdtVerif.Attention
